@@ -715,6 +715,11 @@ func (h *fsHandler) openIndexFile(ctx *RequestContext, dirPath string, mustCompr
 	for _, indexName := range h.indexNames {
 		indexFilePath := dirPath + "/" + indexName
 		ff, err := h.openFSFile(indexFilePath, mustCompress)
+		if err != nil && mustCompress && !os.IsNotExist(err) {
+			// the compressed copy of the index file cannot be opened or created: the
+			// index file itself is served, as a file asked for by its name is
+			ff, err = h.openFSFile(indexFilePath, false)
+		}
 		if err == nil {
 			return ff, nil
 		}
